@@ -493,7 +493,12 @@ var rSecondaryAttach = &Rule{
 
 // conditionalWrappers: exported constructors that are documented to return the error unchanged for some
 // non-error argument values. key: package-relative function name; value: the reason (checked by reading).
-var conditionalWrappers = map[string]string{}
+var conditionalWrappers = map[string]string{
+	"contexttags.WithContextTags": "documented: 'the error is returned unchanged' when the context carries no tags",
+	"errors.WithContextTags":      "forwards to contexttags.WithContextTags",
+	"safedetails.WithSafeDetails": "documented: with an empty format and no arguments 'the error argument is returned unchanged'",
+	"errors.WithSafeDetails":      "forwards to safedetails.WithSafeDetails",
+}
 
 var rAlwaysWraps = &Rule{
 	Name: "R-ALWAYS-WRAPS",
@@ -507,7 +512,8 @@ var rAlwaysWraps = &Rule{
 			fn *ssa.Function
 			pi int
 		}
-		memo := map[key]string{} // "" = always wraps; otherwise the reason it does not
+		memo := map[key]string{}        // "" = always wraps; otherwise the reason it does not
+		passThrough := map[key]string{} // constructors that return the error itself under an error-independent condition
 		var always func(fn *ssa.Function, pi int, depth int) string
 		always = func(fn *ssa.Function, pi int, depth int) string {
 			k := key{fn, pi}
@@ -552,6 +558,9 @@ var rAlwaysWraps = &Rule{
 						if x == fn.Params[pi] {
 							// passing the error through is acceptable only when the decision does not look at the error
 							// (beyond its nilness): e.g. no tags in the context, an empty format.
+							if passThrough[k] == "" {
+								passThrough[k] = "returns the error parameter itself at " + p.Pos(ret.Pos())
+							}
 							for _, l := range lits {
 								if isNilTestOf(l.V, fn.Params[pi]) {
 									continue
@@ -578,6 +587,8 @@ var rAlwaysWraps = &Rule{
 								found = true
 								if r := always(callee, j, depth+1); r != "" {
 									res = "through " + load.FnName(callee) + ": " + r
+								} else if pt := passThrough[key{callee, j}]; pt != "" && passThrough[k] == "" {
+									passThrough[k] = "through " + load.FnName(callee) + ": " + pt
 								}
 								break
 							}
@@ -614,12 +625,14 @@ var rAlwaysWraps = &Rule{
 			name := load.FnName(fn)
 			construct := fmt.Sprintf("%s(%s non-nil)", name, fn.Params[pi].Name())
 			why := always(fn, pi, 0)
-			if reason, tabled := conditionalWrappers[name]; tabled {
-				if why == "" {
-					c.Note("R-ALWAYS-WRAPS: tabled exception %s is stale (the constructor now always wraps)", name)
+			// a pass-through on a condition that does not look at the error is acceptable only where the API documents
+			// it (frozen table); everywhere else the caller asked for an annotation and gets none
+			if why == "" && passThrough[key{fn, pi}] != "" {
+				if reason, tabled := conditionalWrappers[name]; tabled {
+					c.Ob(construct, fn.Pos(), true, "documented conditional annotation ("+reason+"), decided by a condition that does not look at the error")
+					continue
 				}
-				c.Ob(construct, fn.Pos(), true, "documented conditional annotation: "+reason)
-				continue
+				why = passThrough[key{fn, pi}] + " under a condition on the other arguments that the API does not document"
 			}
 			c.Check(why == "", construct, fn.Pos(), "always a new wrapper around the error", "for a non-nil error the constructor can skip the annotation: "+why)
 		}
@@ -832,7 +845,7 @@ var rMemo = &Rule{
 				}
 				nMemo++
 				construct := load.FnName(fn) + ": memo in " + st.state
-				if ld.key != st.key {
+				if !sameExpr(ld.key, st.key, 0) {
 					c.Fail(construct, sx.InstrPos(st.in), "the value is stored under a key ("+describeVal(st.key)+") that is not the key it is looked up with ("+describeVal(ld.key)+")")
 					continue
 				}
@@ -841,7 +854,7 @@ var rMemo = &Rule{
 				seen := map[ssa.Value]bool{}
 				var walk func(v ssa.Value, d int)
 				walk = func(v ssa.Value, d int) {
-					if v == nil || leak != "" || seen[v] || v == st.key || d > 60 {
+					if v == nil || leak != "" || seen[v] || v == st.key || d > 60 || sameExpr(v, st.key, 0) {
 						return
 					}
 					seen[v] = true
@@ -893,6 +906,43 @@ var rMemo = &Rule{
 		c.Ob("all hand-written functions", token.NoPos, true, fmt.Sprintf("%d functions inspected, %d memoisation sites", nFn, nMemo))
 		c.Min("functions inspected", nFn, 400)
 	},
+}
+
+// sameExpr: a and b are the same SSA value, or two evaluations of the same side-effect-free expression: loads of
+// the same field / constant-index element of the same base, conversions of the same value, len of the same value.
+func sameExpr(a, b ssa.Value, d int) bool {
+	if a == b {
+		return true
+	}
+	if a == nil || b == nil || d > 6 {
+		return false
+	}
+	switch x := a.(type) {
+	case *ssa.UnOp:
+		y, ok := b.(*ssa.UnOp)
+		return ok && x.Op == y.Op && sameExpr(x.X, y.X, d+1)
+	case *ssa.IndexAddr:
+		y, ok := b.(*ssa.IndexAddr)
+		if !ok || !sameExpr(x.X, y.X, d+1) {
+			return false
+		}
+		kx, okx := sx.ConstInt(x.Index)
+		ky, oky := sx.ConstInt(y.Index)
+		return (okx && oky && kx == ky) || sameExpr(x.Index, y.Index, d+1)
+	case *ssa.FieldAddr:
+		y, ok := b.(*ssa.FieldAddr)
+		return ok && x.Field == y.Field && sameExpr(x.X, y.X, d+1)
+	case *ssa.Convert:
+		y, ok := b.(*ssa.Convert)
+		return ok && types.Identical(x.Type(), y.Type()) && sameExpr(x.X, y.X, d+1)
+	case *ssa.MakeInterface:
+		y, ok := b.(*ssa.MakeInterface)
+		return ok && sameExpr(x.X, y.X, d+1)
+	case *ssa.Const:
+		y, ok := b.(*ssa.Const)
+		return ok && x.Value != nil && y.Value != nil && x.Value.ExactString() == y.Value.ExactString() && types.Identical(x.Type(), y.Type())
+	}
+	return false
 }
 
 func globalOfLoad(v ssa.Value) *ssa.Global {
@@ -1601,5 +1651,319 @@ var rPayloadDecoder = &Rule{
 				"the encoder sends a payload but no decoder is registered for "+cp.Name+": a value of this type is rebuilt as an opaque leaf/wrapper after its next hop and everything the payload carries (and the type's own methods answer from) is lost")
 		}
 		c.Min("encoders that send a payload", n, 15)
+	},
+}
+
+// ---------------------------------------------------------------------------
+// R-JOIN-NODE
+
+var rJoinNode = &Rule{
+	Name: "R-JOIN-NODE",
+	Doc: "joining always yields a multi-cause node: (a) every return of errutil.JoinWithDepth is withstack.WithStackDepth(join.Join(errs...), …) applied to its own variadic parameter - no shortcut returns one of the errors (or a wrapper around it) without the join node, whatever the number of non-nil arguments; " +
+		"(b) in join.Join the only returns are nil - on the edge where the count of non-nil arguments is zero - and the freshly allocated *joinError whose errs field receives the arguments by append in a forward range over the parameter. A one-error fast path makes errors.Join(err, f.Close()) a plain chain: UnwrapAll/Cause walk through it, the tree sent over the wire has no branch, and the top-level API disagrees with join.Join",
+	Run: func(c *core.Ctx) {
+		p := c.P
+		jwd, join := p.Func("errutil", "JoinWithDepth"), p.Func("join", "Join")
+		if jwd == nil || join == nil {
+			c.InternalErr("errutil.JoinWithDepth / join.Join", "anchor functions not found")
+			return
+		}
+		// (a)
+		for _, ret := range sx.Returns(jwd) {
+			ok := false
+			if call, isCall := ret.Results[0].(*ssa.Call); isCall && sx.Callee(call) != nil && sx.Callee(call).Name() == "WithStackDepth" && len(call.Call.Args) == 2 {
+				if inner, isCall := call.Call.Args[0].(*ssa.Call); isCall && sx.Callee(inner) == join && len(inner.Call.Args) == 1 && inner.Call.Args[0] == ssa.Value(jwd.Params[len(jwd.Params)-1]) {
+					ok = true
+				}
+			}
+			c.Check(ok, "errutil.JoinWithDepth: result", ret.Pos(), "WithStackDepth(join.Join(errs...), depth+1)",
+				"JoinWithDepth can return something other than the stack-annotated join of all its arguments (a shortcut for particular argument counts): the result is not a multi-cause node, so shape, Unwrap/Cause behaviour and the encoded tree differ from join.Join and from the standard library")
+		}
+		// (b)
+		nFresh := 0
+		for _, ret := range sx.Returns(join) {
+			v := ret.Results[0]
+			if sx.IsNil(v) {
+				// must be on the n == 0 edge
+				ok := false
+				for _, l := range dominatingLits(ret.Block()) {
+					if bin, isBin := l.V.(*ssa.BinOp); isBin {
+						if k, isK := sx.ConstInt(bin.Y); isK && k == 0 && ((bin.Op == token.EQL && !l.Neg) || (bin.Op == token.NEQ && l.Neg) || (bin.Op == token.GTR && l.Neg)) {
+							if _, isPhi := bin.X.(*ssa.Phi); isPhi {
+								ok = true
+							}
+						}
+					}
+				}
+				c.Check(ok, "join.Join: nil result", ret.Pos(), "only when no argument is non-nil (count == 0)", "join.Join returns nil on an edge that is not 'no non-nil argument'")
+				continue
+			}
+			mi, isMI := v.(*ssa.MakeInterface)
+			fresh := false
+			if isMI {
+				if al, isAl := mi.X.(*ssa.Alloc); isAl && sx.IsNamed(al.Type(), load.ModPath+"/join", "joinError") {
+					fresh = true
+					nFresh++
+				}
+			}
+			c.Check(fresh, "join.Join: non-nil result", ret.Pos(), "a freshly allocated *joinError", "join.Join returns something other than a new join node (e.g. its single non-nil argument)")
+		}
+		c.Check(nFresh >= 1, "join.Join: join node", join.Pos(), "built on some path", "join.Join never builds a join node")
+	},
+}
+
+// ---------------------------------------------------------------------------
+// R-STACK-WHOLE
+
+var rStackWhole = &Rule{
+	Name: "R-STACK-WHOLE",
+	Doc: "the printed stack that travels is the whole stack: in (*withstack.withStack).SafeDetails the value formatted into the first safe detail is the result of the receiver's StackTrace() itself - not a slice of it. GetReportableStackTrace converts the full StackTrace() of a local error but re-parses the printed form after a hop, so a truncated printout makes the reportable frames differ before and after transfer",
+	Run: func(c *core.Ctx) {
+		p := c.P
+		ws := p.Named("withstack", "withStack")
+		if ws == nil {
+			c.InternalErr("withstack.withStack", "type not found")
+			return
+		}
+		sd := p.Method(ws, "SafeDetails")
+		if sd == nil {
+			c.InternalErr("(*withstack.withStack).SafeDetails", "method not found")
+			return
+		}
+		n := 0
+		sx.EachInstr(sd, func(in ssa.Instruction) {
+			call, ok := in.(*ssa.Call)
+			if !ok {
+				return
+			}
+			f := sx.Callee(call)
+			if f == nil || f.Name() != "Sprintf" || len(call.Call.Args) != 2 {
+				return
+			}
+			for _, a := range varargs(call.Call.Args[1]) {
+				v := stripIface(a)
+				if !strings.Contains(v.Type().String(), "StackTrace") {
+					continue
+				}
+				n++
+				st, isCall := v.(*ssa.Call)
+				whole := false
+				if isCall && sx.Callee(st) != nil && sx.Callee(st).Name() == "StackTrace" && len(st.Call.Args) == 1 {
+					arg := st.Call.Args[0]
+					if arg == ssa.Value(sd.Params[0]) {
+						whole = true
+					} else if ld, isLd := arg.(*ssa.UnOp); isLd && ld.Op == token.MUL { // promoted from an embedded field of the receiver
+						if fa, isFA := ld.X.(*ssa.FieldAddr); isFA && fa.X == ssa.Value(sd.Params[0]) {
+							whole = true
+						}
+					}
+				}
+				c.Check(whole, "(*withstack.withStack).SafeDetails: printed stack", call.Pos(), "the receiver's whole StackTrace()",
+					"the stack printed into the safe details is not the receiver's StackTrace() itself ("+describeVal(v)+"): frames are dropped or altered in the form that travels, so reportable frames differ before and after a hop")
+			}
+		})
+		c.Check(n >= 1, "(*withstack.withStack).SafeDetails: printed stack present", sd.Pos(), "a StackTrace is formatted", "SafeDetails no longer prints a stack trace")
+	},
+}
+
+// ---------------------------------------------------------------------------
+// R-INDEX-FOUND
+
+var rIndexFound = &Rule{
+	Name: "R-INDEX-FOUND",
+	Doc: "a search result is used exactly when something was found: wherever hand-written code cuts a string at the position returned by strings.Index / IndexByte / IndexRune / LastIndex* (the result is a bound of a slice expression of the searched string), the cut is guarded by the 'found' test of that result - r >= 0, r != -1, r > -1, or the negation of r == -1 / r < 0 - and not by r > 0 (or r >= 1), which treats a match at position 0 as 'not found' (a text that starts with the separator is then not cut at all)",
+	Run: func(c *core.Ctx) {
+		n := 0
+		for _, fn := range c.P.HandFuncs() {
+			sx.EachInstr(fn, func(in ssa.Instruction) {
+				sl, ok := in.(*ssa.Slice)
+				if !ok || !isStringType(sl.X.Type()) {
+					return
+				}
+				for _, bound := range []ssa.Value{sl.Low, sl.High} {
+					if bound == nil {
+						continue
+					}
+					// bound is r, or r + k
+					r := bound
+					if bin, ok := r.(*ssa.BinOp); ok && bin.Op == token.ADD {
+						if _, isK := sx.ConstInt(bin.Y); isK {
+							r = bin.X
+						}
+					}
+					call, ok := r.(*ssa.Call)
+					if !ok {
+						continue
+					}
+					f := sx.Callee(call)
+					if f == nil || load.FnPkg(f) == nil || (load.FnPkg(f).Path() != "strings" && load.FnPkg(f).Path() != "bytes") || !(strings.HasPrefix(f.Name(), "Index") || strings.HasPrefix(f.Name(), "LastIndex")) {
+						continue
+					}
+					if len(call.Call.Args) < 1 || call.Call.Args[0] != sl.X {
+						continue // the position refers to another string
+					}
+					n++
+					construct := load.FnName(fn) + ": cut at " + sx.TrimMod(sx.CalleeName(call))
+					verdict := "unguarded"
+					for _, l := range dominatingLits(sl.Block()) {
+						bin, isBin := l.V.(*ssa.BinOp)
+						if !isBin || bin.X != ssa.Value(call) {
+							continue
+						}
+						k, isK := sx.ConstInt(bin.Y)
+						if !isK {
+							continue
+						}
+						holds := !l.Neg
+						switch {
+						case bin.Op == token.GEQ && k == 0 && holds, bin.Op == token.NEQ && k == -1 && holds, bin.Op == token.GTR && k == -1 && holds,
+							bin.Op == token.EQL && k == -1 && !holds, bin.Op == token.LSS && k == 0 && !holds, bin.Op == token.LEQ && k == -1 && !holds:
+							verdict = "found"
+						case bin.Op == token.GTR && k == 0 && holds, bin.Op == token.GEQ && k == 1 && holds, bin.Op == token.LEQ && k == 0 && !holds, bin.Op == token.LSS && k == 1 && !holds:
+							if verdict != "found" {
+								verdict = "positive"
+							}
+						}
+					}
+					switch verdict {
+					case "found":
+						c.Ob(construct, sl.Pos(), true, "cut exactly when the search found a position")
+					case "positive":
+						c.Fail(construct, sl.Pos(), "the cut is guarded by 'position > 0' instead of 'found' (position >= 0): when the match is at position 0 - the text starts with the separator - the text is not cut at all")
+					default:
+						// no guard on the result: the slice would panic for -1 unless the search cannot fail; R-BOUNDS territory
+						c.Ob(construct, sl.Pos(), true, "no guard relating to 'found' dominates the cut (not decided here)")
+					}
+				}
+			})
+		}
+		c.Min("string cuts at a search result", n, 5)
+	},
+}
+
+// ---------------------------------------------------------------------------
+// R-FORMAT-STORED
+
+var rFormatStored = &Rule{
+	Name: "R-FORMAT-STORED",
+	Doc: "a format string is always formatted: in every hand-written function with a (format string, args ...interface{}) tail, the format parameter itself is never stored into a struct field and never passed to a module function in a position that is not a format parameter. A shortcut for 'no arguments' stores the unformatted text - \"80%%\" stays \"80%%\" - so the ...f variant disagrees with the plain variant for the same text (hints are no longer de-duplicated, details carry raw verbs)",
+	Run: func(c *core.Ctx) {
+		n := 0
+		for _, fn := range c.P.HandFuncs() {
+			if pk := load.FnPkg(fn); pk != nil && strings.HasSuffix(pk.Path(), "/testutils") {
+				continue
+			}
+			fi := formatParamIndex(fn)
+			if fi < 0 || fi >= len(fn.Params) {
+				continue
+			}
+			n++
+			fp := fn.Params[fi]
+			name := load.FnName(fn)
+			isFormat := func(v ssa.Value) bool {
+				for i := 0; i < 4; i++ {
+					switch x := v.(type) {
+					case *ssa.Convert:
+						v = x.X
+						continue
+					case *ssa.ChangeType:
+						v = x.X
+						continue
+					case *ssa.MakeInterface:
+						v = x.X
+						continue
+					}
+					break
+				}
+				if v == ssa.Value(fp) {
+					return true
+				}
+				if ph, ok := v.(*ssa.Phi); ok {
+					for _, e := range ph.Edges {
+						if e == ssa.Value(fp) {
+							return true
+						}
+					}
+				}
+				return false
+			}
+			bad := false
+			sx.EachInstr(fn, func(in ssa.Instruction) {
+				switch x := in.(type) {
+				case *ssa.Store:
+					if _, isField := x.Addr.(*ssa.FieldAddr); isField && isFormat(x.Val) {
+						bad = true
+						c.Fail(name+": format stored verbatim", x.Pos(), "the format string is stored into a field without having been formatted (a shortcut path): verbs such as %% keep their raw form, unlike in the plain variant of the same API")
+					}
+				case *ssa.Call:
+					callee := sx.Callee(x)
+					if callee == nil || !c.P.InModule(callee) {
+						return
+					}
+					cfi := formatParamIndex(callee)
+					for i, a := range x.Call.Args {
+						if !isFormat(a) || i == cfi {
+							continue
+						}
+						if i < len(callee.Params) && callee.Params[i].Name() == "format" {
+							continue
+						}
+						bad = true
+						c.Fail(name+": format passed as a plain string", x.Pos(), "the format string is handed to "+load.FnName(callee)+" in a position that is not a format parameter: it is used as a message without being formatted")
+					}
+				}
+			})
+			if !bad {
+				c.Ob(name+": format parameter", fn.Pos(), true, "only ever formatted or forwarded as a format")
+			}
+		}
+		c.Min("printf-like functions of the module", n, 25)
+	},
+}
+
+// ---------------------------------------------------------------------------
+// R-GENERIC-PATH
+
+var rGenericPath = &Rule{
+	Name: "R-GENERIC-PATH",
+	Doc: "types without an encoder of their own travel unaltered: in errbase.encodeLeaf and encodeWrapper every value stored into the outgoing ReportablePayload is (a) the second result of the registered encoder, (b) the result of err.SafeDetails() itself, or (c) part of the details an opaque value stored when it was received - never a transformed copy. The decoders of such types (telemetry keys, domains, issue links, …) rebuild the annotation from exactly these strings, so escaping, trimming or truncating them on the way out changes the annotation after the first hop",
+	Run: func(c *core.Ctx) {
+		p := c.P
+		n := 0
+		for _, name := range []string{"encodeLeaf", "encodeWrapper"} {
+			fn := p.Func("errbase", name)
+			if fn == nil {
+				c.InternalErr("errbase."+name, "anchor not found")
+				continue
+			}
+			sx.EachInstr(fn, func(in ssa.Instruction) {
+				st, ok := in.(*ssa.Store)
+				if !ok {
+					return
+				}
+				fa, ok := st.Addr.(*ssa.FieldAddr)
+				if !ok || fieldNameOf(fa) != "ReportablePayload" {
+					return
+				}
+				n++
+				okv := false
+				why := describeVal(st.Val)
+				switch x := st.Val.(type) {
+				case *ssa.Extract:
+					if call, isCall := x.Tuple.(*ssa.Call); isCall && sx.Callee(call) == nil && !call.Call.IsInvoke() && x.Index == 1 {
+						okv = true // registered encoder's details
+					}
+				case *ssa.Call:
+					if x.Call.IsInvoke() && x.Call.Method.Name() == "SafeDetails" && len(x.Call.Args) == 0 {
+						okv = true
+					} else if f := sx.Callee(x); f != nil {
+						why = "result of " + load.FnName(f)
+					}
+				}
+				c.Check(okv, "errbase."+name+": outgoing ReportablePayload", st.Pos(), "the registered encoder's details or err.SafeDetails() itself",
+					"the safe details put on the wire are a transformed copy ("+why+") of what the error reports: decoders rebuild annotations from these strings, so the annotation differs after a hop")
+			})
+		}
+		c.Min("stores into the outgoing ReportablePayload", n, 4)
 	},
 }
